@@ -1,5 +1,5 @@
 import Gp.Lemmas.PoolAsmN
-import Gp.Lemmas.PoolReasm
+import Gp.Lemmas.PoolReasmN
 /-
   C12 — Assemblers sharing one stream pool are safe under every interleaving.
 
@@ -243,6 +243,63 @@ theorem right_stream_counterexample : ¬ right_stream_full := by
   have hr := Sys.reachable_run (sys true cx2Progs) .init cx2Sched
   have h1 := (h cx2Progs _ hr).1 1 1 0 ⟨0, false⟩ 1 (by decide)
   revert h1; decide
+
+/-- right_stream_partial (fixed pool): without stale recycling every delivered packet goes to the stream
+    created for (one direction of) its own connection. -/
+theorem right_stream_partial (progs : Tid → List Op) (s : State) (h : (sys true progs).ReachableR NoStale s) :
+    RightStream s := by
+  have hi := invN_reachableR progs s h
+  exact ⟨fun sid t i k n hm => (hi.rs1 sid t i k n hm).2, fun sid t i k hm => (hi.rs2 sid t i k hm).2⟩
+
+/-- Non-vacuity: both directions of a connection race (the former FIXME schedule), attach to one entry,
+    both deliver to the same stream, the two FINs close both halves, the stream is completed, the entry removed. -/
+example : ∃ s, (sys true (fun t => if t = 0 then [.pkt ⟨0, false⟩ .fin] else if t = 1 then [.pkt ⟨0, true⟩ .fin] else [])).ReachableR NoStale s
+    ∧ Ev.deliv 0 0 0 ⟨0, false⟩ 1 ∈ s.log ∧ Ev.deliv 0 1 0 ⟨0, true⟩ 1 ∈ s.log ∧ Ev.complete 0 1 ∈ s.log ∧ s.conns = [] := by
+  refine ⟨Sys.runG (sys true _) noRecycleB (sys true _).init [0, 1, 0, 1, 0, 0, 1, 1, 1],
+    Sys.reachableR_runG (sys true _) noRecycleB noStale_of_noRecycleB .init _, ?_, ?_, ?_, ?_⟩
+  all_goals decide
+
+/-- kept_stream_completed_once at full strength.  FALSE (also after the fix). -/
+def kept_stream_completed_once_full : Prop :=
+  ∀ (progs : Tid → List Op) (s : State), (sys true progs).Reachable s → KeptOnce s
+
+/-- 0: SYN 1a, SYN 0a, FIN 0a, FIN 0b;  1: SYN 1a;  2: FIN 0a;  3: FIN 0b. -/
+def cx3Progs : Tid → List Op
+  | 0 => [.pkt ⟨1, false⟩ .syn, .pkt ⟨0, false⟩ .syn, .pkt ⟨0, false⟩ .fin, .pkt ⟨0, true⟩ .fin]
+  | 1 => [.pkt ⟨1, false⟩ .syn]
+  | 2 => [.pkt ⟨0, false⟩ .fin]
+  | 3 => [.pkt ⟨0, true⟩ .fin]
+  | _ => []
+
+/-- 1 misses pair 1 under the read lock; 0 creates pair 1's and pair 0's connections; 2 and 3 look pair 0's
+    object up (one half each) and stop before `conn.mu.Lock()`; 0's two FINs close and free it; 1's
+    double-checked insert pops it, resets it for pair 1 and drops it; 2 and 3 close its two halves through
+    their stale pointers, and `remove` deletes `conns[1a]` — pair 1's LIVE entry, whose stream (1) is lost. -/
+def cx3Sched : List Tid := [1, 0, 0, 0, 0, 0, 0, 0, 0, 2, 3, 0, 0, 0, 0, 0, 0, 0, 1, 2, 2, 3, 3, 3]
+
+theorem kept_stream_completed_once_counterexample : ¬ kept_stream_completed_once_full := by
+  intro h
+  have hr := Sys.reachable_run (sys true cx3Progs) .init cx3Sched
+  obtain ⟨c, h1, _⟩ := (h cx3Progs _ hr 1 (by decide)).2 (by decide)
+  have h2 : ((sys true cx3Progs).run (sys true cx3Progs).init cx3Sched).conns.get
+      (((sys true cx3Progs).run (sys true cx3Progs).init cx3Sched).skey 1) = none := by decide
+  rw [h2] at h1; cases h1
+
+/-- kept_stream_completed_once_partial (fixed pool, no stale recycling). -/
+theorem kept_stream_completed_once_partial (progs : Tid → List Op) (s : State)
+    (h : (sys true progs).ReachableR NoStale s) : KeptOnce s := by
+  have hi := invN_reachableR progs s h
+  intro sid hk
+  exact ⟨hi.b5 sid, hi.n7 sid hk⟩
+
+/-- Without stale recycling the half pointers a thread took before `conn.mu.Lock()` belong to its own key. -/
+theorem pointer_key_partial (progs : Tid → List Op) (s : State) (h : (sys true progs).ReachableR NoStale s)
+    (t : Tid) (c : CId) (hb : Bool) (k : Key) (kind : Kind) (rest : List Op)
+    (hpc : (s.thr t).pc = .lock c hb) (hsn : (s.thr t).snap = none) (hp : (s.thr t).prog = .pkt k kind :: rest) :
+    halfKey (s.obj c).key hb = k := by
+  have := (invN_reachableR progs s h).n4 t c hb hpc hsn
+  rw [hp, headKey_pkt] at this
+  exact (Option.some.inj this).symm
 
 end Reasm
 
